@@ -43,7 +43,7 @@ func isMissing(err error) bool {
 }
 
 func runC14(c *fw.Case) {
-	if desyncBin() != "" && c.Chance(1, procRate(100), "c14.proc") {
+	if desyncBin() != "" && c.ChanceAdded(1, procRate(100), "c14.proc") {
 		runC14Proc(c)
 		return
 	}
